@@ -533,6 +533,22 @@ pub fn wide_interrupt_spaces(tier: &str, streams: bool) -> Vec<Space> {
     )]
 }
 
+/// Shapes up to `nmax` functions under every non-default provenance (`Spec::prov`).
+pub fn provenance_specs(nmax: usize) -> Vec<Spec> {
+    let mut v = vec![];
+    for s in shapes_upto(0, nmax, false) {
+        for p in 1u8..=5 {
+            if p >= 4 && s.n != 0 {
+                continue;
+            }
+            let mut t = s.clone();
+            t.prov = p;
+            v.push(t);
+        }
+    }
+    v
+}
+
 pub struct TaskOpts {
     pub futures: bool,
     pub streams: bool,
@@ -793,6 +809,13 @@ pub fn general_spaces(o: &GenOpts) -> Vec<Space> {
     }));
     v.push(space("StreamOpts builder methods called in every order (non-default values for all three settings), shapes 1<=n<=3", shapes_upto(1, 3, false), None, move |s| {
         cfgs_opts_orders(s.n, &Api::all_with(), &[None], with_streams)
+    }));
+    v.push(space("graph values of unusual provenance (a clone, built on another thread, deref_mut() called, FnGraph::new() / default()), shapes n<=3, all 20 future methods x order, 4 streams", provenance_specs(3), None, move |s| {
+        let mut c = cfgs_plain(s.n, &Api::all(), &[None], &REVS);
+        if with_streams {
+            c.extend(cfgs_stream_plain(&SApi::all(), &REVS, 0, false, false));
+        }
+        c
     }));
     if o.n_stream > 0 {
         let st = o.strats.clone();
